@@ -113,11 +113,15 @@ def checkIDs (target : Bytes) : List Bytes → Flat → Bool
 
 /-! ### import: sending the nodes -/
 
-/-- SendNode on the store model: node points first, then the edge points with the node type appended (and a
-    tombstone-0 point when there is no edge point at all). Zero times are stamped by the store: `now`. -/
+/-- the edge points carry a tombstone point (key "" or "0") -/
+def hasTomb (eps : List Point) : Bool := eps.any (fun p => p.type == tombstoneT && (p.key == [] || p.key == zeroKey))
+
+/-- SendNode on the store model: node points first, then the edge points — with a tombstone-0 point added when they
+    carry no tombstone point (after the repair: before, only when there was no edge point at all) — and the node type
+    appended. Zero times are stamped by the store: `now`. -/
 def sendNode (st : St) (n : NodeRec) (now : Int) : Res St :=
   let stamp := fun (p : Point) => if p.time = 0 then { p with time := now } else p
-  let eps := (if n.epts.isEmpty then [{ type := tombstoneT, time := now }] else n.epts.map stamp) ++
+  let eps := n.epts.map stamp ++ (if hasTomb n.epts then [] else [{ type := tombstoneT, time := now }]) ++
     [{ type := nodeTypeT, text := n.typ, time := now }]
   if n.id = [] then .err "id" else if n.parent = [] ∨ n.parent = noneS then .err "parent"
   else
